@@ -138,6 +138,7 @@ def _coordinator_patches(world):
                 s.emit('CtlWaitKbi')
                 raise
         patches.append((CT, 'wait', ctl_wait))
+    world.ctl_hooked = sum(1 for c, n, _ in patches if c is CT) == 2
     return patches
 
 
@@ -169,6 +170,8 @@ def run_scenario(sc, chooser, max_steps=20000, keep_world=False):
                                   if k in ('kind', 'src', 'dst', 'size',
                                            'offset', 'old')}
                                  for t in sc['transfers']]})
+            if getattr(w, 'ctl_hooked', False):
+                w.events.append({'e': 'CtlHooked', 'th': None, 't': 0})
             w.sched.run(lambda: _user(w, sc))
             # everything below runs uncontrolled, after quiescence
             result['final'] = w.final_state()
